@@ -1514,3 +1514,14 @@ def np_count_nonzero(ctx, a):
     snap = a.snapshot()
     cur = Arr.from_fn(a.shape, 'int', lambda idx: S.ite(S.truth(snap.at(idx)), 1, 0))
     return np_sum(ctx, cur)
+
+
+@lib('copy.copy')
+def _copy_copy(ctx, v):
+    if isinstance(v, Obj):
+        return Obj(v.cls, dict(v.attrs))
+    if isinstance(v, PyList):
+        return PyList(v.items)
+    if isinstance(v, Arr):
+        return np_copy(ctx, v)
+    return v
